@@ -11,6 +11,7 @@ import (
 	hos "github.com/hack-pad/hackpadfs/os"
 
 	"verifharness/internal/kvstore"
+	"verifharness/internal/masks"
 	"verifharness/internal/world"
 )
 
@@ -116,6 +117,11 @@ func New(kind string) *Subject {
 			s.Parts = append(s.Parts, mab)
 		}
 		s.FS = mfs
+	case "minimal":
+		// a small writable FS: only Open, OpenFile, Mkdir, Remove, Rename; every other helper takes its fallback path
+		inner := NewMem()
+		s.FS = masks.New(inner, []string{"OpenFileFS", "MkdirFS", "RemoveFS", "RenameFS"}, &masks.Hooks{})
+		s.Parts = []hackpadfs.FS{inner}
 	case "submem":
 		parent := NewMem()
 		must(parent.MkdirAll("s/t", 0o755))
